@@ -111,6 +111,9 @@ type sPeer struct {
 	lstCh  chan struct{}
 	top    uint32 // highest block this remote has sent so far
 	left   bool   // the remote went away on purpose
+	// a leaving remote stops answering requests first, so that nothing is in flight when it closes
+	leaving int32
+	serveMu sync.Mutex
 }
 
 var errPeerClosed = errors.New("scripted peer closed")
@@ -493,6 +496,11 @@ func (x *pmRun) serveLoop(p *sPeer) {
 		if q.From > q.To {
 			continue
 		}
+		p.serveMu.Lock()
+		if atomic.LoadInt32(&p.leaving) != 0 {
+			p.serveMu.Unlock()
+			return
+		}
 		var chunk []BlockRef
 		flush := func() {
 			if len(chunk) > 0 {
@@ -512,6 +520,7 @@ func (x *pmRun) serveLoop(p *sPeer) {
 			}
 		}
 		flush()
+		p.serveMu.Unlock()
 	}
 }
 
@@ -613,6 +622,12 @@ func (x *pmRun) deliver(st Step) {
 	}
 	switch st.Kind {
 	case "leave":
+		// a polite remote: it goes away only after the node has handled what it sent (the manager
+		// throws away the unread messages of a connection that ends)
+		atomic.StoreInt32(&p.leaving, 1)
+		p.serveMu.Lock()
+		p.serveMu.Unlock()
+		x.flushPeer(p)
 		p.left = true
 		p.Close()
 		x.c.Stat("pm_remotes_left_during_the_history", 1)
@@ -667,6 +682,31 @@ func (x *pmRun) deliver(st Step) {
 	case "pause":
 		time.Sleep(time.Duration(st.Ms) * time.Millisecond)
 	}
+}
+
+// flushPeer: the remote asks for the node's status and waits for the answer (the manager
+// handles the messages of one remote in order). False only when the watchdog expired.
+func (x *pmRun) flushPeer(p *sPeer) bool {
+	if p.isClosed() {
+		x.c.Stat("pm_remote_closed_by_node", 1)
+		return true
+	}
+	statusReq, _ := rlp.EncodeToBytes(&network.GetLatestStatus{Revert: 0})
+	for len(p.lstCh) > 0 {
+		<-p.lstCh
+	}
+	if !p.send(p2p.GetLstStatusMsg, statusReq) {
+		x.c.Stat("pm_remote_closed_by_node", 1)
+		return true
+	}
+	select {
+	case <-p.lstCh:
+	case <-p.closed:
+		x.c.Stat("pm_remote_closed_by_node", 1)
+	case <-time.After(watchdog):
+		return false
+	}
+	return true
 }
 
 func execPM(c *run.Ctx, vs *violSink, cs *PMCase) {
@@ -760,27 +800,11 @@ func execPM(c *run.Ctx, vs *violSink, cs *PMCase) {
 
 	// 6. flush: every remote gets an answer to a status request (the manager handles a remote's
 	// messages in order), then every BlocksMsg handed over has gone through the block loop
-	statusReq, _ := rlp.EncodeToBytes(&network.GetLatestStatus{Revert: 0})
 	for _, p := range x.peers {
 		if p == nil || p.left {
 			continue
 		}
-		if p.isClosed() {
-			c.Stat("pm_remote_closed_by_node", 1)
-			continue
-		}
-		for len(p.lstCh) > 0 {
-			<-p.lstCh
-		}
-		if !p.send(p2p.GetLstStatusMsg, statusReq) {
-			c.Stat("pm_remote_closed_by_node", 1)
-			continue
-		}
-		select {
-		case <-p.lstCh:
-		case <-p.closed:
-			c.Stat("pm_remote_closed_by_node", 1)
-		case <-time.After(watchdog):
+		if !x.flushPeer(p) {
 			c.Inconclusive("the node did not answer a status request within the watchdog")
 			return
 		}
@@ -839,6 +863,13 @@ func execPM(c *run.Ctx, vs *violSink, cs *PMCase) {
 	x.judgeChain(expCur, expSta, used, budget)
 
 	// evidence
+	stranded := 0
+	for _, e := range x.pm.VerifConfirmCache().VerifEntries() {
+		if x.V.BC.HasBlock(e.Hash) && e.Height > x.V.BC.StableBlock().Height() {
+			stranded++
+		}
+	}
+	c.Stat("pm_confirms_left_in_confirm_cache_for_unstable_blocks_in_chain_not_judged", int64(stranded))
 	c.Stat("pm_histories", 1)
 	c.Stat("pm_block_requests_from_node", atomic.LoadInt64(&x.reqs))
 	c.Stat("pm_confirm_requests_from_node", atomic.LoadInt64(&x.cfReqs))
